@@ -97,7 +97,15 @@ func vpH_C08_dict() {
 		// one input only (among them the empty term), in the first or in the second
 		cut := variant - 2
 		s1, s2 := vpBuild(docs[:cut], 1025), vpBuild(docs[cut:], 1025)
-		mb, _ := vpMergeBytes([]*Segment{s1, s2}, []*roaring.Bitmap{nil, nil}, 1025)
+		var d2 *roaring.Bitmap
+		if vpChoice("drop-in-later-input", 2) == 1 {
+			// the first document of the later input is deleted: terms it shares with
+			// the earlier input stay live there only
+			d2 = roaring.New()
+			d2.Add(0)
+			held = append(append([]*vpDoc(nil), docs[:cut]...), docs[cut+1:]...)
+		}
+		mb, _ := vpMergeBytes([]*Segment{s1, s2}, []*roaring.Bitmap{nil, d2}, 1025)
 		seg = vpLoad(mb)
 		vpNote("feat:merged")
 		vpReach("C08 merged from two segments")
